@@ -100,13 +100,14 @@ NewAT(client, sub, scopes, aud) ==
                 !.scopes = SetToSeq(scopes), !.aud = SetToSeq(aud),
                 !.lib = IF Reg[client].at = "jwt" THEN "ok" ELSE "none", !.iss = IF Reg[client].at = "jwt" THEN IssuerName ELSE "none",
                 !.jsub = IF Reg[client].at = "jwt" THEN sub ELSE "none", !.jclient = IF Reg[client].at = "jwt" THEN client ELSE "none",
-                !.sealed = IF Reg[client].at = "jwt" THEN "none" ELSE "ok"]
+                !.sealed = IF Reg[client].at = "jwt" THEN "none" ELSE "ok",
+                !.iatAgo = IF Reg[client].at = "jwt" THEN Skew(client) ELSE 0, !.expiresOff = Skew(client)]
 NewRT(client, sub, scopes, aud, auth, root) ==
   [name |-> N("f", cnt.f + 1), client |-> client, sub |-> sub, scopes |-> SetToSeq(scopes),
    aud |-> SetToSeq(aud), auth |-> auth, root |-> IF root = "new" THEN N("f", cnt.f + 1) ELSE root]
 NewIDTA(client, sub, nonce, auth, amr) ==
   [NoIdt EXCEPT !.auth = auth, !.amr = amr, !.name = N("i", cnt.i + 1), !.sub = sub, !.aud = <<client>>, !.azp = client, !.nonce = nonce,
-                !.iss = IssuerName, !.sig = "ok", !.lib = "ok", !.life = IDTLifetime]
+                !.iss = IssuerName, !.sig = "ok", !.lib = "ok", !.life = IDTLifetime + 2 * Skew(client), !.iatAgo = Skew(client)]
 NewIDT(client, sub, nonce) == NewIDTA(client, sub, nonce, "none", <<>>)
 NewIDTReq(r) == NewIDTA(r.client, r.sub, r.nonce, r.auth, <<"pwd">>)
 
